@@ -465,6 +465,11 @@ def _svgp_cell(case, ctx, g):
             r_03, c_03 = _closed_form(Kzz3, Kxz3, Kxx3, mz3, mx3, mu_03, Su_03, 0.0, 0.0)
             o3 = m(X)
             kl3 = vs.kl_divergence()
+        if Su_j3 is not None and float(torch.linalg.cond(Su_j3).max()) > 1e8:
+            # the random update left q(u) numerically singular (natural parameters hold the precision): nothing to compare at 1e-7
+            ctx.info["degenerate_random_qu_after_update"] += 1
+            ctx.cell({k: v for k, v in case.items() if k != "seed"}, nontrivial=nontriv)
+            return
         ctx.close("qf_train_mean", o3.mean, r_j3.expand(o3.mean.shape), tol, cls=cls + ":train_mean:no_grad_after_update", alt=r_03.expand(o3.mean.shape), strategy=strat, dist=dist)
         dj3, d03 = torch.diagonal(c_j3, dim1=-2, dim2=-1), torch.diagonal(c_03, dim1=-2, dim2=-1)
         ctx.close("qf_train_variance", o3.variance, dj3.expand(o3.variance.shape), tol, cls=cls + ":train_var:no_grad_after_update", alt=d03.expand(o3.variance.shape), strategy=strat, dist=dist)
